@@ -230,6 +230,15 @@ func runMast(seed int64, n int, dir string) error {
 			k := pool[g.r.Intn(len(pool))]
 			kt := keyTok(k)
 			x := g.r.Intn(100)
+			if twins && x >= 45 && x < 65 {
+				// no Delete in histories with numerically equal INTEGER / REAL keys (finding F-C07-2): with an
+				// equal key on another level, mast's Delete can link a node to itself, and the next flush
+				// recurses until the Go runtime aborts the process (stack overflow: not recoverable here)
+				x = 70
+			}
+			if os.Getenv("VERIF_TRACE") != "" {
+				fmt.Fprintf(os.Stderr, "case %d bf %d op %d choice %d key %s\n", c, bf, o, x, kt)
+			}
 			switch {
 			case x < 45: // insert / replace
 				vid++
